@@ -348,7 +348,7 @@ func GenRegexpText(g G, c *Corpus, fromName bool, allowAssert bool) (string, []s
 		return regexp.QuoteMeta(p)
 	}
 	word := func() string { return regexp.QuoteMeta(Pick(g, Words, "rw")) }
-	k := g.Int(0, 13, "rekind")
+	k := g.Int(0, 14, "rekind")
 	if !allowAssert && (k == 3 || k == 6 || k == 7) {
 		k = 1
 	}
@@ -398,6 +398,15 @@ func GenRegexpText(g G, c *Corpus, fromName bool, allowAssert bool) (string, []s
 		return Pick(g, []string{"x*", "(foo)?", ".*", `\s*`, "a*b*"}, "empty"), []string{"re:emptyok"}
 	case 12:
 		return lit() + `\n` + lit(), []string{"re:newline"}
+	case 13:
+		// alternatives that are case variants / extensions of one another
+		w := Pick(g, []string{"foo", "bar", "aba", "needle", "été", "Go"}, "cvw")
+		a := regexp.QuoteMeta(changeCase(g, w))
+		b := regexp.QuoteMeta(changeCase(g, w) + Pick(g, []string{" ", "", "b", "\n", "foo"}, "cvx"))
+		if g.Bool(50, "cvorder") {
+			a, b = b, a
+		}
+		return a + "|" + b, []string{"re:alt-casevariants"}
 	default:
 		return lit() + ".*" + lit() + ".*" + lit(), []string{"re:concat3"}
 	}
